@@ -140,7 +140,7 @@ def paintRow (P : Params) (old new : Nat → Cell) (mk : Nat → Mark) (W r : Na
           let pre := faceCmd t f ++ curCmd t (r, col)
           if ch = 32 then
             let rep := 1 + run new mk (new col) W (col + 1)
-            if rep > 4 then
+            if rep > 4 ∧ P.plain f then
               let q := paintRow P old new mk W r (col + rep) { cur := (r, col), face := some f }
               (pre ++ [.erase rep] ++ q.1, q.2)
             else
@@ -209,8 +209,8 @@ def runSteps (P : Params) (x : State × Screen) (l : List Step) : State × Scree
 
 /-! ## line protocol
 
-`hist H W clear0 widths sizes rasters alphabet step…` → command lists of the steps joined by `|`
-`exec H W clear0 widths sizes rasters alphabet init step=cmds…` → `ok` when after every frame the
+`hist H W clear0 widths sizes rasters nonplain-faces alphabet step…` → command lists of the steps joined by `|`
+`exec H W clear0 widths sizes rasters nonplain-faces alphabet init step=cmds…` → `ok` when after every frame the
 reference terminal that executed the given commands equals `display` of the drawn surface, else
 `fail <index of the step>`.
 -/
@@ -227,7 +227,7 @@ def parseNats (sep : String) (s : String) : Option (List Nat) := (s.splitOn sep)
 def parseTable (s : String) : Option (List (List Nat)) :=
   if s == "-" then some [] else (s.splitOn ",").mapM (parseNats ":")
 
-def mkParams (ws ss rs : List (List Nat)) : Params :=
+def mkParams (ws ss rs : List (List Nat)) (np : List Nat) : Params :=
   { width := fun ch => match ws.find? (fun e => e.head? == some ch) with
       | some [_, w] => w
       | _ => 1
@@ -236,7 +236,8 @@ def mkParams (ws ss rs : List (List Nat)) : Params :=
       | _ => (1, 1)
     raster := fun f g => match rs.find? (fun e => e.take 2 == [f, g]) with
       | some [_, _, i] => i
-      | _ => 0 }
+      | _ => 0
+    plain := fun f => !np.contains f }
 
 def parseCellSpec : List String → Option Cell
   | [f, "c", n] => do pure ⟨← f.toNat?, .chr (← n.toNat?)⟩
@@ -302,8 +303,8 @@ structure Header where
   alpha : Array Cell
 
 def parseHeader : List String → Option (Header × List String)
-  | h :: w :: c0 :: ws :: ss :: rs :: al :: rest => do
-    let P := mkParams (← parseTable ws) (← parseTable ss) (← parseTable rs)
+  | h :: w :: c0 :: ws :: ss :: rs :: np :: al :: rest => do
+    let P := mkParams (← parseTable ws) (← parseTable ss) (← parseTable rs) (← natList? np)
     pure ({ H := ← h.toNat?, W := ← w.toNat?, clear0 := c0 == "1", P := P, alpha := ← parseAlphabet al }, rest)
   | _ => none
 
